@@ -196,14 +196,14 @@ def model(mdl, lib, actor_ty, roots, extra_unknown=()):
         unknown.append("no direct fn")
     return ("{| m_lib := %s; m_actor_ty := %s; m_script := %s; m_live := %s; m_variants := %s; m_direct_param := %s; m_direct_param_ty := %s; "
             "m_direct_async := %s; m_arms := %s; m_play := %s; m_methods := %s; m_live_attrs := %s; m_live_vis := %s; m_live_fields := %s; "
-            "m_traits := %s; m_script_fns := %s; m_roots := %s; m_unknown := %s; m_user_async := %s |}") % (
+            "m_traits := %s; m_script_fns := %s; m_roots := %s; m_unknown := %s; m_user_async := %s; m_user_ret := %s |}") % (
         LIBS.get(lib, "LibOther"), s(actor_ty), s(mdl["script"]["name"]), s(live["name"]),
         lst(mdl["script"]["variants"], lambda v: "{| v_name := %s; v_tuple := %s; v_fields := %s |}" % (s(v["name"]), b(v["tuple"]), lst(v["fields"], lambda f: pair(s(f[0]), s(f[1]))))),
         s(d["param"] or ""), s(d["param_ty"] or ""), b(d["async"]), lst(d["arms"], arm), play(mdl["play"]),
         lst(mdl["methods"], lmethod), lst(live["attrs"], s), s(live["vis"]), lst(live["fields"], lambda f: pair(s(f[0]), s(f[1]))),
         lst([t["trait"] for t in mdl["traits"]], s),
         lst([m["name"] for m in (mdl["script_impl"]["methods"] if mdl["script_impl"] else [])], s),
-        lst(roots, s), lst(unknown, s), lst(mdl.get("user_async", []), s))
+        lst(roots, s), lst(unknown, s), lst(mdl.get("user_async", []), s), lst(mdl.get("user_ret", []), s))
 
 
 def family(ex, lib, actor_ty="A"):
